@@ -128,13 +128,30 @@ int main(int argc, char **argv) {
                     if (changed) { bytes.insert(nm.first + nm.second, " " + u); label("respelled-duplicate-name"); }
                 }
             }
-            if (*g::chance(80)) { auto ed = *rc::gen::container<std::vector<int>>((size_t) (3 * *g::range(1, 4)), g::range(0, 99999)); bytes = mutate(bytes, ed); label("mutated"); }
+            bool aligned = false;
+            // an undecodable byte sequence (or a lone surrogate) right behind a token whose last character is the last character of a
+            // 4096-byte read: the scanner's look-ahead behind the token then triggers the refill in which the decoding error is reported
+            if (*g::chance(7)) {
+                static const char *TOK[] = {"_v\n;line one\nline two\n;", "_v 'quoted'", "_v '''tri\nple'''", "_v \"\"\"x\"\"\"", "_v [a b]", "_v {'k':v}", "_v bare", "# a comment", "_v 'a'", "loop_ _p _q 1 2"};
+                static const char *BAD[] = {"\n_w \xFF\n", " \xFFz\n", "\xFF", "\n_w 'a\xC0" "b'\n", "\n\xED\xA0\x80\n", "\n_w\n;\xFE\n;\n", " '''\xED\xA0\x80"};
+                int k = *g::range(1, 3), d = *rc::gen::weightedElement<int>({{6, 0}, {2, -1}, {2, 1}});
+                std::string tok = TOK[(size_t) *g::range(0, 9)], bad = BAD[(size_t) *g::range(0, 6)];
+                std::string head = std::string(*g::chance(85) ? "#\\#CIF_2.0\n" : "") + "data_al\n";
+                size_t want_end = (size_t) (4096 * k - 1 + d);                 // offset of the token's last character
+                size_t fixed = head.size() + tok.size();
+                std::string pad; while (fixed + pad.size() < want_end + 1) { size_t room = want_end + 1 - fixed - pad.size(); size_t n = std::min<size_t>(room, 61); if (n == 1) pad += "\n"; else { pad += "#"; pad += std::string(n - 2, 'p'); pad += "\n"; } }
+                bytes = head + pad + tok + bad + "_z 1\n";
+                label("fill-aligned-undecodable"); aligned = true;
+            }
+            if (!aligned && *g::chance(80)) { auto ed = *rc::gen::container<std::vector<int>>((size_t) (3 * *g::range(1, 4)), g::range(0, 99999)); bytes = mutate(bytes, ed); label("mutated"); }
             int enc = *rc::gen::weightedElement<int>({{12, 0}, {2, 1}, {1, 2}, {1, 3}, {1, 4}});
+            if (aligned) enc = 0;
             if (enc) { bytes = reencode(bytes, enc, *g::chance(70)); label(enc <= 2 ? "utf16" : "utf32"); }
             // known finding F-NAME_ (see classify): excluded by construction -- a lone '_' token gets a letter
             // (F-NAME_ -- a lone underscore as data name -- is fixed in /repo: nothing is excluded here any more)
             std::string ob; for (int i = 0; i < 12; i++) ob += (char) *g::range(0, 255);
             if (*g::chance(50)) { ob[0] = 1; ob[1] = 2; ob[2] = 1; ob[3] = 1; ob[4] = 0; ob[5] = 0; ob[6] = 0; ob[7] = 1; }   // default options half of the time
+            if (aligned && *g::chance(40)) { ob[6] = (char) 200; ob[7] = 0; }   // forced CESU-8: its converter hands lone surrogates through one by one
             CaseFile c; c.set("input", bytes); c.set("optbytes", ob);
             VH_BEGIN(c);
             if (bytes.size() < 120) sample(esc(bytes) + "  [" + c03::Opts::decode((const unsigned char *) ob.data(), 12).str() + "]");
